@@ -35,7 +35,7 @@ ASSUMPTIONS = [
 FILES = ["plain.js", "sp ace.js", "pct%.js", "hash#.js", "q?.js", "plus+.js", "semi;.js", "amp&.js",
          "apos'.js", 'quot".js', "lt<gt>.js", "%41.js", "é中.js", "sub/dir/n.js"]
 STYLE = "st yle&.css"
-EXTRA = ["extra.txt", "assets/img.bin"]
+EXTRA = ["extra.txt", "assets/img.bin", ".hidden.css", ".dotdir/inner.js"]
 _FX = {}
 
 
@@ -173,6 +173,22 @@ def fn(case):
             return (True, "raised", viols, 1)
         if caller != "copy_to" and ret != file:
             viols.append(("return-value", f"save_html returned {ret!r}, not the path written", {}))
+        if local and stale == "dir":
+            # history: the same dependency is copied to the same destination a second time in this
+            # process, after something stale has appeared there: it must be cleared again
+            os.makedirs(os.path.join(target, "late-stale"), exist_ok=True)
+            with open(os.path.join(target, "late-stale", "f.txt"), "w") as f:
+                f.write("late")
+            for rel in (list(scripts) + ([style] if style else []))[:1]:
+                p = os.path.join(target, rel)
+                if os.path.isfile(p):
+                    with open(p, "w") as f:
+                        f.write("tampered")
+            dep2 = make_dep(scripts, style, all_files, source_kind, missing)
+            if caller == "copy_to":
+                dep2.copy_to(destdir, include_version=incv)
+            else:
+                HTMLDocument(Tag("p", "x"), dep2).save_html(file, libdir=libdir, include_version=incv)
         # --- URLs
         src_root = None if not local else dep.source_path_map()["source"]
         if caller != "copy_to":
